@@ -1523,11 +1523,16 @@ class CircuitTemplate(AbstractBaseTemplate):
             # group edges that connect the same vectorized node variables via the same edge templates
             if (source_new, target_new, template, delayed) in edge_col:
 
-                # extend edge dict by edge variables
+                # extend edge dict by edge variables (an attribute that only some of the grouped edges define, e.g. the
+                # spread of a delay distribution, is None for the others, such that all value lists stay aligned)
                 base_dict = edge_col[(source_new, target_new, template, delayed)]
-                for key, val in edge_dict.items():
-                    val = [val] * edge_len
-                    base_dict[key].extend(val)
+                n_old = len(base_dict['source_idx'])
+                for key in list(edge_dict) + [k for k in base_dict if k not in edge_dict]:
+                    if key in ('source_idx', 'target_idx'):
+                        continue
+                    if key not in base_dict:
+                        base_dict[key] = [None] * n_old
+                    base_dict[key].extend([edge_dict.get(key)] * edge_len)
                 base_dict['source_idx'].extend(s_idx)
                 base_dict['target_idx'].extend(t_idx)
 
